@@ -45,7 +45,9 @@ def gen_case(seed, tier, prop="C18"):
                 "end": rng.choice(["eof", "eof", "close", "eof_close"]),
                 "recv_sizes": [rng.choice([1, 3, 11, 100, 65536]) for _ in range(3)],
                 "rpause": [rng.choice([0, 0, 0.125, 0.5]) for _ in range(3)],
-                "probe": rng.choice([None, None, None, "busy_send", "busy_recv", "use_after_close", "close_blocked_reader"]),
+                "probe": rng.choice([None, None, None, "busy_send", "busy_recv", "use_after_close", "close_blocked_reader",
+                                     "close_while_busy"]),
+                "close_after": rng.choice([0.125, 0.25, 0.5, 1.0]),
                 # request/response style: after its last send() the writer stays connected and silent until the peer has
                 # read everything (no EOF or further data that could push a stuck remainder out)
                 "wait_peer": rng.random() < 0.4}
@@ -180,11 +182,13 @@ class SockRun:
                         await sleep(0.25)
                     else:
                         self.bump("peer_read_everything_while_writer_idle")
+                if e["closed"]:
+                    return          # the stream was closed by the close_while_busy prober meanwhile
                 if cfg["end"] in ("eof", "eof_close"):
                     await st.send_eof()
                     self.h.rec("eof", name)
                     e["eof"] = True
-                elif cfg["probe"] != "close_blocked_reader":
+                elif cfg["probe"] not in ("close_blocked_reader", "close_while_busy"):
                     # plain close: the writer closes the stream while the own reader may still be blocked in receive()
                     e["closed"] = True
                     e["closed_at"] = self.h.rec("close", name)[0]
@@ -316,6 +320,20 @@ class SockRun:
                 tg.start_soon(writer, name)
                 if cfg["probe"] in ("busy_recv", "busy_send"):
                     tg.start_soon(prober, name)
+                if cfg["probe"] == "close_while_busy":
+                    # close our end at a seeded time, whatever the reader and the writer are doing: a receive() waiting for
+                    # data and a send() held back by the peer's full buffers must both come back
+                    await sleep(cfg.get("close_after", 0.25))
+                    if not e["closed"]:
+                        e["closed"] = True
+                        e["closed_at"] = self.h.rec("close", name)[0]
+                        e["closed_it"] = loop.iterations
+                        e["blocked_at_close"] = e.get("in_receive") is not None
+                        if not e["writer_done"] and e.get("inflight") is not None:
+                            self.faults["close_with_send_blocked"] += 1
+                            if e["blocked_at_close"]:
+                                self.faults["close_with_both_directions_blocked"] += 1
+                        await st.aclose()
                 if cfg["probe"] == "close_blocked_reader":
                     # close our end while our own reader may be blocked in receive(): it must come back promptly
                     while not e["writer_done"]:
@@ -374,7 +392,7 @@ class SockRun:
                 self.v("integrity", f"{src}->{dst}: received bytes diverge from the sent stream at offset {k} "
                                     f"(sent {len(sent)}, received {len(got)})")
                 continue
-            reader_closed_early = d["cfg"]["probe"] == "close_blocked_reader"
+            reader_closed_early = d["cfg"]["probe"] in ("close_blocked_reader", "close_while_busy")
             if d["end"] == "EOS" and len(got) < len(sent):
                 self.v("lost", f"{src}->{dst}: the reader got EndOfStream after {len(got)} of {len(sent)} bytes whose send() had completed")
             if d["end"] == "EOS" and "send_err" not in s and len(got) != len(sent):
